@@ -416,6 +416,19 @@ func (x *c12n) block(list []ast.Stmt, depth int) {
 	lastSet := -1  // index in x.lines of the last simple statement
 	lastVars := "" // its left-hand side
 	for _, st := range list {
+		// name := func() { … }: a local closure (its statements are rendered like a block)
+		if a, ok := st.(*ast.AssignStmt); ok && len(a.Lhs) == 1 && len(a.Rhs) == 1 {
+			if fl, ok := a.Rhs[0].(*ast.FuncLit); ok {
+				if len(fl.Type.Params.List) != 0 || (fl.Type.Results != nil && len(fl.Type.Results.List) != 0) {
+					x.refuse(st, "closure with parameters or results")
+				}
+				x.emit(depth, x.expr(a.Lhs[0])+" = func() {")
+				x.block(fl.Body.List, depth+1)
+				x.emit(depth, "}")
+				lastSet = -1
+				continue
+			}
+		}
 		if s, emitIt, ok := x.simple(st); ok {
 			if emitIt {
 				x.emit(depth, s)
